@@ -42,6 +42,7 @@ fn roundtrip_check(prop: &'static str, tier: Tier, seed: u64, json: bool) -> i32
     for st in stats.into_inner().unwrap() {
         rep.evaluations += st.total;
         rep.distinct.extend(st.distinct);
+        rep.maxset("max_orders_in_one_level_or_queue_round_trip", st.widest as u64);
         for (k, v) in st.per_type {
             *per_type.entry(k).or_default() += v;
         }
@@ -61,7 +62,7 @@ fn roundtrip_check(prop: &'static str, tier: Tier, seed: u64, json: bool) -> i32
     rep.set("exhaustive", json!(true));
     rep.set(
         "exhaustive_scope",
-        json!("the boundary grids (every order type x every time-in-force incl. GTD at the 64-bit edge values x both sides; every numeric field swept over {0,1,2^32,2^53-1,2^53,2^53+1,2^63,2^63+1,2^64-2,2^64-1}; i64 offsets at MIN/MIN+1/-1/0/1/MAX-1/MAX; nil / max / random UUID and ULID ids; every update kind x edge values; empty lists) are enumerated completely; the rest is seeded random sampling"),
+        json!("the boundary grids (every order type x every time-in-force incl. GTD at the 64-bit edge values x both sides; every numeric field swept over {0,1,255,256,2^16-1,2^16,2^31-1,2^31,2^32-1,2^32,2^53-1,2^53,2^53+1,2^63,2^63+1,10^19-1,10^19,2^64-2,2^64-1}; i64 offsets at MIN/MIN+1/-1/0/1/MAX-1/MAX; nil / max / random UUID and ULID ids; every update kind x edge values; empty lists) are enumerated completely; the rest is seeded random sampling"),
     );
     rep.rule = format!(
         "value -> {} -> value for every codec type; equality on the full value (Debug form of every field; levels / queues by content; snapshot text form by price + aggregates); non-trivial = every value (each has at least one field); distinct = distinct encodings (hash of the encoded text)",
@@ -157,13 +158,111 @@ pub fn segment_faults(s: &str, f: &mut dyn FnMut(&str)) {
             while k < b.len() && b[k].is_ascii_digit() {
                 k += 1;
             }
-            for rep in ["9999999999999999999999999999999999999999", "", "-1", "18446744073709551616", "1e5", "0x10", " 1"] {
+            // (too long, empty, negative, one past u64, float / hex / padded forms, and *valid*
+            // huge values: sizes and counts taken from the text must not be trusted)
+            for rep in [
+                "9999999999999999999999999999999999999999",
+                "",
+                "-1",
+                "18446744073709551616",
+                "1e5",
+                "0x10",
+                " 1",
+                "18446744073709551615",
+                "9223372036854775808",
+                "1152921504606846976",
+                "4294967296",
+                "1000000000",
+            ] {
                 let m = format!("{}{}{}", &s[..i], rep, &s[k..]);
                 f(&m);
             }
             i = k;
         } else {
             i += 1;
+        }
+    }
+}
+
+/// Overlong field values: every digit run (and every value after `=` / `:`) replaced by a long
+/// run with one multi-byte character at offset k, for every k in 0..=200 around the usual buffer
+/// and clipping sizes; plus plain long runs of 63 / 64 / 65 / 127 / 128 / 129 / 255 / 256 / 257 /
+/// 4096 digits.  Error paths that clip, echo or index the offending value live here.
+pub fn overlong_faults(s: &str, f: &mut dyn FnMut(&str)) {
+    let b = s.as_bytes();
+    // first three digit runs are enough: the error path is per field kind, not per position
+    let mut runs: Vec<(usize, usize)> = Vec::new();
+    let mut i = 0;
+    while i < b.len() && runs.len() < 3 {
+        if b[i].is_ascii_digit() {
+            let mut k = i;
+            while k < b.len() && b[k].is_ascii_digit() {
+                k += 1;
+            }
+            runs.push((i, k));
+            i = k;
+        } else {
+            i += 1;
+        }
+    }
+    let mut buf = String::new();
+    for (i, k) in runs {
+        for n in [63usize, 64, 65, 127, 128, 129, 255, 256, 257, 4096] {
+            buf.clear();
+            buf.push_str(&s[..i]);
+            for _ in 0..n {
+                buf.push('7');
+            }
+            buf.push_str(&s[k..]);
+            f(&buf);
+        }
+        for wide in ['é', '€', '😀'] {
+            for at in 0..=200usize {
+                buf.clear();
+                buf.push_str(&s[..i]);
+                for _ in 0..at {
+                    buf.push('7');
+                }
+                buf.push(wide);
+                for _ in 0..(8 + at % 3) {
+                    buf.push('7');
+                }
+                buf.push_str(&s[k..]);
+                f(&buf);
+            }
+        }
+    }
+}
+
+/// A seeded sample of the single character-level faults (for encodings too long for the complete
+/// enumeration, which is quadratic in the length).
+pub fn sampled_single_faults(s: &str, alpha: &[char], rng: &mut Rng, n: usize, f: &mut dyn FnMut(&str, u8)) {
+    let idx: Vec<usize> = s.char_indices().map(|x| x.0).chain(std::iter::once(s.len())).collect();
+    let mut buf = String::with_capacity(s.len() + 8);
+    for _ in 0..n {
+        let p = rng.usize_below(idx.len() - 1);
+        let (i, next) = (idx[p], idx[p + 1]);
+        let a = *rng.pick(alpha);
+        buf.clear();
+        match rng.below(4) {
+            0 => {
+                buf.push_str(&s[..i]);
+                buf.push_str(&s[next..]);
+                f(&buf, 0);
+            }
+            1 => {
+                buf.push_str(&s[..i]);
+                buf.push(a);
+                buf.push_str(&s[next..]);
+                f(&buf, 1);
+            }
+            2 => {
+                buf.push_str(&s[..i]);
+                buf.push(a);
+                buf.push_str(&s[i..]);
+                f(&buf, 2);
+            }
+            _ => f(&s[..i], 3),
         }
     }
 }
@@ -489,6 +588,25 @@ pub fn c18(tier: Tier, seed: u64) -> i32 {
             }
             let f = lookup(entry);
             let mut n_mut = 0u64;
+            overlong_faults(enc, &mut |m| {
+                run(entry, f, m, &mut part, &mut per_entry);
+                n_mut += 1;
+            });
+            if enc.len() > 3_000 {
+                // long list values (tens to a thousand elements): the complete enumeration is
+                // quadratic in the length, so these get a seeded sample
+                part.add("long_encodings_with_sampled_faults", 1);
+                part.maxset("max_encoding_length_mutated", enc.len() as u64);
+                let mut r = Rng::derive(seed ^ 0x18ab, si as u64);
+                sampled_single_faults(enc, &alpha, &mut r, 1_500, &mut |m, _| {
+                    run(entry, f, m, &mut part, &mut per_entry);
+                    n_mut += 1;
+                });
+                part.distinct.insert(fnv(enc.as_bytes()));
+                part.add("mutants", n_mut);
+                continue;
+            }
+            part.maxset("max_encoding_length_mutated", enc.len() as u64);
             single_faults(enc, &alpha, &mut |m, _| {
                 run(entry, f, m, &mut part, &mut per_entry);
                 n_mut += 1;
@@ -838,8 +956,20 @@ fn structural(c: &Content, f: &mut dyn FnMut(String, &'static str)) {
         m["snapshot"]["orders"].as_array_mut().unwrap().push(json!({"Standard": {"id": "00000000-0000-0000-0000-0000000000aa", "price": c.price, "quantity": 1, "side": "BUY", "timestamp": 1, "time_in_force": "GTC", "extra_fields": null}}));
         f(m.to_string(), "append-order");
     }
-    // version
-    for ver in [0u64, 2, 3, u32::MAX as u64] {
+    block_edits(c, &v, f);
+    // version: neighbours, extremes, and every value that agrees with the supported one in its low
+    // bits (supported + 2^k) or is a lone power of two
+    let mut versions = vec![0u64, 2, 3, u32::MAX as u64, u64::MAX];
+    for k in 1..64 {
+        versions.push(SUPPORTED_VERSION.wrapping_add(1u64 << k));
+        versions.push(1u64 << k);
+    }
+    versions.sort();
+    versions.dedup();
+    for ver in versions {
+        if ver == SUPPORTED_VERSION {
+            continue;
+        }
         let mut m = v.clone();
         m["version"] = json!(ver);
         f(m.to_string(), "version");
@@ -929,6 +1059,43 @@ fn structural(c: &Content, f: &mut dyn FnMut(String, &'static str)) {
     }
 }
 
+/// Re-sequencing of whole blocks of the order list (sizes: powers of two and of ten): adjacent
+/// blocks swapped, the list rotated by a block, the list reversed.  A digest that treats blocks
+/// independently (chunked, parallel, XOR-combined) is blind to exactly these.
+fn block_edits(_c: &Content, v: &Value, f: &mut dyn FnMut(String, &'static str)) {
+    let Some(orders) = v["snapshot"]["orders"].as_array() else { return };
+    let n = orders.len();
+    if n < 2 {
+        return;
+    }
+    let mut sizes: Vec<usize> = (0..12).map(|k| 1usize << k).chain([10, 100, 1000]).filter(|b| 2 * *b <= n).collect();
+    sizes.sort();
+    sizes.dedup();
+    let mut emit = |list: Vec<Value>, class: &'static str| {
+        if &list != orders {
+            let mut m = v.clone();
+            m["snapshot"]["orders"] = Value::Array(list);
+            f(m.to_string(), class);
+        }
+    };
+    for b in sizes {
+        // first two blocks, last two aligned blocks
+        for start in [0usize, (n / b - 2) * b] {
+            let mut l = orders.clone();
+            for i in 0..b {
+                l.swap(start + i, start + b + i);
+            }
+            emit(l, "swap-order-blocks");
+        }
+        let mut l = orders.clone();
+        l.rotate_left(b);
+        emit(l, "rotate-order-list");
+    }
+    let mut l = orders.clone();
+    l.reverse();
+    emit(l, "reverse-order-list");
+}
+
 pub fn c09(tier: Tier, seed: u64) -> i32 {
     let mut rep = Report::new("C09", tier, seed, "fault_enumeration");
     let nw = ncpu();
@@ -936,6 +1103,16 @@ pub fn c09(tier: Tier, seed: u64) -> i32 {
     let mut rng = Rng::derive(seed ^ 0xc09, 0);
     let n_contents = budget(tier, 16, 400) as usize;
     let all = contents(&mut rng, n_contents);
+    let wide: Vec<Content> = {
+        let sizes: &[usize] = match tier {
+            Tier::Quick => &[9, 10, 11, 100, 130, 600],
+            Tier::Thorough => &[9, 10, 11, 31, 33, 64, 99, 100, 101, 130, 256, 257, 600, 1000, 1030, 2100, 4100],
+        };
+        sizes
+            .iter()
+            .filter_map(|n| content_of(format!("wide-{}", n), &codec::levelv(&mut rng, *n)))
+            .collect()
+    };
     // single faults over the whole alphabet are enumerated exhaustively for the first contents;
     // the remaining contents get all deletions / truncations / structural edits and sampled rest
     let n_exhaustive = budget(tier, 16, 200) as usize;
@@ -1013,6 +1190,59 @@ pub fn c09(tier: Tier, seed: u64) -> i32 {
                 }
             }
         }
+        // wide contents (tens to a thousand orders: decimal widths of counts change, buffers and
+        // capacity hints are outgrown): structural edits completely, character faults sampled
+        for (wi, c) in wide.iter().enumerate() {
+            for slice in 0..4usize {
+                if (wi * 4 + slice) % nw != w {
+                    continue;
+                }
+                if slice == 0 {
+                    let mut s0 = TamperStats { mutants: 0, rejected: 0, accepted_same: 0, by_class: BTreeMap::new() };
+                    judge(c, &c.json, "identity", false, &mut s0, &mut part);
+                    if s0.accepted_same != 1 {
+                        part.violation(
+                            format!("[{}] the untouched package is not restored to its own content", c.name),
+                            json!({"engine": "tamper", "content": c.name, "original": c.json}),
+                        );
+                    }
+                    if c.orders.len() <= 150 {
+                        structural(c, &mut |m, class| judge(c, &m, class, false, &mut st, &mut part));
+                    } else if let Ok(v) = serde_json::from_str::<Value>(&c.json) {
+                        block_edits(c, &v, &mut |m, class| judge(c, &m, class, false, &mut st, &mut part));
+                    }
+                    part.distinct.insert(fnv(c.json.as_bytes()));
+                }
+                let bytes = c.json.as_bytes();
+                let n_pos = if c.orders.len() <= 150 { 250 } else { 40 };
+                let mut buf = String::with_capacity(c.json.len() + 8);
+                for _ in 0..n_pos {
+                    // the package is ASCII (ids, numbers, names): byte offsets are char offsets
+                    let i = rng.usize_below(bytes.len());
+                    if !c.json.is_char_boundary(i) || !c.json.is_char_boundary(i + 1) {
+                        continue;
+                    }
+                    buf.clear();
+                    buf.push_str(&c.json[..i]);
+                    buf.push_str(&c.json[i + 1..]);
+                    judge(c, &buf, "deletion", false, &mut st, &mut part);
+                    judge(c, &c.json[..i], "truncation", true, &mut st, &mut part);
+                    let a = *rng.pick(&alpha);
+                    if a as u32 != bytes[i] as u32 {
+                        buf.clear();
+                        buf.push_str(&c.json[..i]);
+                        buf.push(a);
+                        buf.push_str(&c.json[i + 1..]);
+                        judge(c, &buf, "substitution", false, &mut st, &mut part);
+                    }
+                    buf.clear();
+                    buf.push_str(&c.json[..i]);
+                    buf.push(a);
+                    buf.push_str(&c.json[i..]);
+                    judge(c, &buf, "insertion", false, &mut st, &mut part);
+                }
+            }
+        }
         // seeded pairs of faults
         let mut k = w as u64;
         while k < n_pairs {
@@ -1045,6 +1275,7 @@ pub fn c09(tier: Tier, seed: u64) -> i32 {
     });
     rep.set("contents", json!(all.iter().map(|c| format!("{} ({} bytes, {} orders)", c.name, c.json.len(), c.orders.len())).collect::<Vec<_>>()));
     rep.set("contents_with_exhaustive_single_faults", json!(n_exhaustive.min(all.len())));
+    rep.set("wide_contents(structural edits complete up to 150 orders, character faults sampled)", json!(wide.iter().map(|c| format!("{} ({} bytes, {} orders)", c.name, c.json.len(), c.orders.len())).collect::<Vec<_>>()));
     rep.set("exhaustive", json!(true));
     rep.set(
         "exhaustive_scope",
